@@ -80,6 +80,8 @@ func (node *FilterNode) addSystemFlowEnd(flow internaltypes.FlowI) error {
 
 func (node *FilterNode) addUserFlow(flow internaltypes.FlowI) error {
 	node.userFlows = append(node.userFlows, flow)
+	// the node's requirements are the union over all of its user flows
+	node.filterRequirements.extend(flow)
 	return nil
 }
 
